@@ -518,3 +518,197 @@ func BatteryMotif(t *rapid.T) (refchess.Pos, bool) {
 	}
 	return p, p.Valid() == nil
 }
+
+// BlockMotif: white to move, in check from one black slider at a distance, with own pawns
+// (single, doubled, on their 2nd/3rd ranks), knights and line pieces placed so that blocking
+// by a single or double pawn push, by a piece, or not at all (pins, obstructed pushes) is what
+// decides between mate and not mate; the king's flight squares are mostly taken or covered.
+func BlockMotif(t *rapid.T) (refchess.Pos, bool) {
+	var p refchess.Pos
+	ks := draw(t, 0, 63, "king")
+	f, r := ks%8, ks/8
+	d := dirs8[draw(t, 0, 7, "dir")]
+	dist := draw(t, 2, 6, "dist")
+	cf, cr := f+d[0]*dist, r+d[1]*dist
+	if !onb(cf, cr) {
+		return p, false
+	}
+	p.Sq[ks] = K
+	checker := int8(Q)
+	if chance(t, 2, 3, "lineChecker") {
+		if d[0] == 0 || d[1] == 0 {
+			checker = R
+		} else {
+			checker = B
+		}
+	}
+	p.Sq[cr*8+cf] = -checker
+	// pawns below the squares between king and checker
+	for i := 1; i < dist; i++ {
+		bf, br := f+d[0]*i, r+d[1]*i
+		if br >= 2 && chance(t, 2, 3, "pawnBelow") {
+			switch draw(t, 0, 4, "pawnShape") {
+			case 0:
+				p.Sq[(br-1)*8+bf] = P
+			case 1:
+				if br == 3 {
+					p.Sq[8+bf] = P // double push needed
+				} else {
+					p.Sq[(br-1)*8+bf] = P
+				}
+			case 2:
+				if br == 3 { // doubled pawns: the rear one cannot jump
+					p.Sq[8+bf], p.Sq[16+bf] = P, P
+					pinThrough(t, &p, ks, 16+bf)
+				}
+			case 3:
+				if br == 3 { // something else in the way of the double push
+					p.Sq[8+bf] = P
+					p.Sq[16+bf] = []int8{N, -N, -P, B}[draw(t, 0, 3, "blocker")]
+				}
+			default:
+				if br-1 >= 1 {
+					p.Sq[(br-1)*8+bf] = P
+					pinThrough(t, &p, ks, (br-1)*8+bf) // the would-be blocker is pinned if it is aligned with the king
+				}
+			}
+		}
+	}
+	// own pieces that might block or capture, possibly pinned by extra sliders aimed at the king
+	for i := draw(t, 0, 3, "ownPieces"); i > 0; i-- {
+		place(t, &p, int8(draw(t, N, Q, "own")))
+	}
+	for i := draw(t, 0, 3, "pinners"); i > 0; i-- {
+		pd := dirs8[draw(t, 0, 7, "pd")]
+		n := draw(t, 2, 7, "pdist")
+		if pd == d || !onb(f+pd[0]*n, r+pd[1]*n) {
+			continue
+		}
+		sq := (r+pd[1]*n)*8 + f + pd[0]*n
+		if p.Sq[sq] == 0 {
+			sl := int8(Q)
+			if pd[0] == 0 || pd[1] == 0 {
+				sl = []int8{R, Q}[draw(t, 0, 1, "rq")]
+			} else {
+				sl = []int8{B, Q}[draw(t, 0, 1, "bq")]
+			}
+			p.Sq[sq] = -sl
+		}
+	}
+	// take away flight squares: own pawns / pieces next to the king
+	for _, kd := range dirs8 {
+		if onb(f+kd[0], r+kd[1]) && p.Sq[(r+kd[1])*8+f+kd[0]] == 0 && kd != d && chance(t, 3, 5, "box") {
+			sq := (r+kd[1])*8 + f + kd[0]
+			k := []int8{P, P, N, B, R}[draw(t, 0, 4, "boxKind")]
+			if k == P && (sq/8 == 0 || sq/8 == 7) {
+				k = N
+			}
+			p.Sq[sq] = k
+		}
+	}
+	ensureKings(t, &p)
+	for i := draw(t, 0, 3, "blackExtra"); i > 0; i-- {
+		place(t, &p, -int8(draw(t, P, Q, "bk")))
+	}
+	trimMaterial(&p)
+	p.White = true
+	p.EP = -1
+	p.Half, p.Full = draw(t, 0, 30, "half"), draw(t, 1, 80, "full")
+	if p.Valid() != nil || !p.InCheck(true) {
+		return p, false
+	}
+	return p, true
+}
+
+// pinThrough places a black slider behind the piece on sq on the line from the king through sq,
+// if the two are aligned with nothing in between (the piece becomes pinned).
+func pinThrough(t *rapid.T, p *refchess.Pos, ks, sq int) {
+	df, dr := sq%8-ks%8, sq/8-ks/8
+	adf, adr := df, dr
+	if adf < 0 {
+		adf = -adf
+	}
+	if adr < 0 {
+		adr = -adr
+	}
+	if !(df == 0 || dr == 0 || adf == adr) || (df == 0 && dr == 0) {
+		return
+	}
+	sf, sr := 0, 0
+	if df != 0 {
+		sf = df / adf
+	}
+	if dr != 0 {
+		sr = dr / adr
+	}
+	for f, r := ks%8+sf, ks/8+sr; f != sq%8 || r != sq/8; f, r = f+sf, r+sr {
+		if p.Sq[r*8+f] != 0 {
+			return
+		}
+	}
+	n := draw(t, 1, 4, "pinnerDist")
+	f, r := sq%8+sf*n, sq/8+sr*n
+	if !onb(f, r) {
+		return
+	}
+	for i := 1; i < n; i++ {
+		if p.Sq[(sq/8+sr*i)*8+sq%8+sf*i] != 0 {
+			return
+		}
+	}
+	if p.Sq[r*8+f] != 0 {
+		return
+	}
+	sl := int8(Q)
+	if sf == 0 || sr == 0 {
+		sl = []int8{R, Q}[draw(t, 0, 1, "rq")]
+	} else {
+		sl = []int8{B, Q}[draw(t, 0, 1, "bq")]
+	}
+	p.Sq[r*8+f] = -sl
+}
+
+// EPTwoOnePinned: a double push flanked by two enemy pawns of which exactly one is pinned to
+// its king (so an en-passant capture is legal for the other one only).
+func EPTwoOnePinned(t *rapid.T) (refchess.Pos, refchess.Move, bool) {
+	var p refchess.Pos
+	f := draw(t, 1, 6, "file")
+	from, to := 8+f, 24+f
+	p.Sq[from] = P
+	p.Sq[24+f-1], p.Sq[24+f+1] = -P, -P
+	pinned := 24 + f - 1
+	if chance(t, 1, 2, "right") {
+		pinned = 24 + f + 1
+	}
+	// black king behind the pinned pawn on a line that an en-passant capture would leave, white slider on the other side
+	d := dirs8[draw(t, 0, 7, "pinDir")]
+	kd, sd := draw(t, 1, 3, "kd"), draw(t, 1, 4, "sd")
+	kf, kr := pinned%8+d[0]*kd, pinned/8+d[1]*kd
+	sf, sr := pinned%8-d[0]*sd, pinned/8-d[1]*sd
+	if !onb(kf, kr) || !onb(sf, sr) || p.Sq[kr*8+kf] != 0 || p.Sq[sr*8+sf] != 0 {
+		return p, refchess.Move{}, false
+	}
+	p.Sq[kr*8+kf] = -K
+	if d[0] == 0 || d[1] == 0 {
+		p.Sq[sr*8+sf] = []int8{R, Q}[draw(t, 0, 1, "rq")]
+	} else {
+		p.Sq[sr*8+sf] = []int8{B, Q}[draw(t, 0, 1, "bq")]
+	}
+	ensureKings(t, &p)
+	fill(t, &p, draw(t, 0, 3, "density"))
+	p.Sq[16+f], p.Sq[24+f] = 0, 0
+	p.Sq[from] = P
+	p.Sq[24+f-1], p.Sq[24+f+1] = -P, -P
+	trimMaterial(&p)
+	p.White, p.EP, p.Half, p.Full = true, -1, draw(t, 0, 20, "half"), draw(t, 1, 100, "full")
+	if p.Valid() != nil {
+		return p, refchess.Move{}, false
+	}
+	m := refchess.Move{From: from, To: to}
+	for _, l := range p.Legal() {
+		if l == m {
+			return p, m, true
+		}
+	}
+	return p, m, false
+}
